@@ -7,8 +7,25 @@
                                arithmetic satisfying the T3-checked hypothesis) / DiskShuffle produce the
                                same output partitions up to the order of rows inside a partition
   The selection thresholds themselves are not modelled: the theorems hold for both outcomes.
+
+  Join strategy (`Merge._lower`, models in Layers/KnobJoin.lean, lemmas in Lemmas/Knobs.lean):
+    C10_join_hash_spec / C10_join_hash_partitioned   hash join = join of the concatenated inputs, every `how`
+    C10_join_broadcast_spec / C10_join_broadcast_run BroadcastJoin (plan / real `_layer` graph) = the same join,
+                                                     for the `how × broadcast side` pairs in `allowed`
+    C10_join_single_spec                             single-partition broadcast (BlockwiseMerge)
+    C10_join_strategy                                hence hash plan ~ broadcast plan, all partitionings/counts
+    C10_join_not_allowed_wrong                       every pair outside `allowed` is refuted by a witness
+    C10_join_lower_legal                             the decision code of `Merge._lower` only picks legal plans
+    C10_join_lower_leftsemi_counterexample           … which needs the (leftsemi, left) exclusion added by D87
+    C10_join_broadcast_wf                            the BroadcastJoin layer is closed and acyclic
+  Sort / set_index partition count (Layers/KnobSort.lean):
+    C10_sort_perm / C10_sort_sorted / C10_sort_npartitions / C10_sort_divsOK_sound / C10_sort_shuffle_run
+    C10_sort_below_first_division_counterexample
+  split_out (Layers/KnobReduce.lean):
+    C10_split_out / C10_split_out_npartitions / C10_split_out_run
 -/
 import DxModel.Props.C02
+import DxModel.Lemmas.Knobs
 namespace Dx
 
 section
@@ -71,5 +88,418 @@ example : ∃ l₁ l₂ l₃,
   C10_shuffle_method_branch I0 pEq pEq (rowsMod 5) rfl rfl rfl (by decide) (by decide) (by decide)
     (rowsMod_lt 5 (by decide)) 1 (by decide) 12 (by decide)
 end
+
+/-! ## join strategy -/
+section Join
+open Shuffle GJ KJ
+
+/-- Hash join (two `RearrangeByColumn` to `n` partitions + `BlockwiseMerge`; `HashJoinP2P` produces the
+    same buckets): for every `how`, every `n ≥ 1` (the `npartitions` hint or `max(nl, nr)`) and every hash
+    function, the partition-wise `merge_chunk` results are a permutation of the join of the whole frames. -/
+theorem C10_join_hash_spec {κ} [DecidableEq κ] (how : How) (kL kR : Row → κ) (h : κ → Nat) (n : Nat)
+    (hn : 0 < n) (L R : List Row) :
+    (hashPlan how kL kR h n L R).Perm (joinSpec how kL kR L R) :=
+  joinSpec_split how kL kR (fun k => h k % n) n (fun _ => Nat.mod_lt _ hn) L R
+
+/-- …stated on the output partitions of the two shuffles (C12's `sem`), for ANY partitioning of both
+    inputs (`rows₁`, `rows₂`, `nin` arbitrary, empty partitions included). -/
+theorem C10_join_hash_partitioned {κ} [DecidableEq κ] (how : How) (p₁ p₂ : Shuffle.Params)
+    (rows₁ rows₂ : Nat → List Row) (kL kR : Row → κ) (h : κ → Nat) (hn : p₁.nout = p₂.nout) (hpos : 0 < p₁.nout)
+    (ha₁ : ∀ i, ∀ r ∈ rows₁ i, r.tgt = h (kL r) % p₁.nout)
+    (ha₂ : ∀ i, ∀ r ∈ rows₂ i, r.tgt = h (kR r) % p₂.nout) :
+    ((List.range p₁.nout).flatMap (fun o => joinSpec how kL kR (sem p₁ rows₁ o) (sem p₂ rows₂ o))).Perm
+      (joinSpec how kL kR (allRows p₁.nin rows₁) (allRows p₂.nin rows₂)) := by
+  refine List.Perm.trans (List.Perm.of_eq ?_)
+    (C10_join_hash_spec how kL kR h p₁.nout hpos (allRows p₁.nin rows₁) (allRows p₂.nin rows₂))
+  unfold hashPlan bucket
+  apply flatMap_congr'
+  intro o _
+  rw [sem_eq_filter, sem_eq_filter]
+  congr 1
+  · apply List.filter_congr
+    intro r hr
+    obtain ⟨i, _, hri⟩ := List.mem_flatMap.mp hr
+    rw [ha₁ i r hri]
+  · apply List.filter_congr
+    intro r hr
+    obtain ⟨i, _, hri⟩ := List.mem_flatMap.mp hr
+    rw [ha₂ i r hri, hn]
+
+/-- the join of the whole frames with the sides in left/right order -/
+abbrev specFor {κ} [DecidableEq κ] (how : How) (side : Side) (kL kR : Row → κ) (other B : List Row) : List JRow :=
+  match side with
+  | .right => joinSpec how kL kR other B
+  | .left => joinSpec how kL kR B other
+
+/-- BroadcastJoin: for the allowed `how × broadcast side` pairs, ANY partitioning of the other side
+    (`nother` partitions — after the optional `Repartition` to the `npartitions` hint), any number
+    `m ≥ 1` of partitions of the broadcast side:
+      * `inner`: the broadcast side in ANY partitioning (`B` = its concatenation);
+      * otherwise its partition `j` holds a permutation of hash bucket `j` of `B` (what
+        `RearrangeByColumn(npartitions_out = m)` delivers by C12) and the other side's partitions are
+        split by the same hash.
+    The concatenated output is a permutation of the join of the whole frames. -/
+theorem C10_join_broadcast_spec {κ} [DecidableEq κ] (how : How) (side : Side) (hallow : allowed how side = true)
+    (kL kR : Row → κ) (h : κ → Nat) (nother m : Nat) (hm : 0 < m) (other bc : Nat → List Row) (B : List Row)
+    (hB : if how = .inner then B = catRows m bc
+          else ∀ j, j < m → (bc j).Perm (bucket h (bcastKey side kL kR) m j B)) :
+    (bcastPlan how side kL kR h nother m other bc).Perm (specFor how side kL kR (catRows nother other) B) := by
+  have := bcastPlan_spec how side hallow kL kR h nother m hm other bc B hB
+  cases side <;> exact this
+
+/-- Single-partition broadcast (`_is_single_partition_broadcast` → `BlockwiseMerge` whose one-partition
+    operand is a broadcast dependency): every partition of the other side is merged with the whole
+    one-partition side, no hashing at all. -/
+theorem C10_join_single_spec {κ} [DecidableEq κ] (how : How) (side : Side) (hallow : allowed how side = true)
+    (kL kR : Row → κ) (n : Nat) (other : Nat → List Row) (B : List Row) :
+    ((List.range n).flatMap (fun i => specFor how side kL kR (other i) B)).Perm
+      (specFor how side kL kR (catRows n other) B) := by
+  have := mergePiece_concat_other how side hallow kL kR n other B
+  cases side <;> exact this
+
+/-- The same through the transliterated `BroadcastJoin._layer` (no partition selection): task
+    `(name, i)` evaluates to `bcastPart` of partition `i`, and the concatenation of all output partitions
+    is a permutation of the join of the whole frames (`mk` turns a matched pair into a result row). -/
+theorem C10_join_broadcast_run {κ : Type} [DecidableEq κ] (p : KJ.Params) (hallow : allowed p.how p.side = true)
+    (kL kR : Row → κ) (h : κ → Nat) (mk : JRow → Row) (nother : Nat) (hparts : p.parts = List.range nother)
+    (hm : 0 < p.bsize) (other bc : Nat → List Row) (B : List Row)
+    (hB : if p.how = .inner then B = catRows p.bsize bc
+          else ∀ j, j < p.bsize → (bc j).Perm (bucket h (bcastKey p.side kL kR) p.bsize j B))
+    (F : Nat) (hF : 3 ≤ F) :
+    ∃ l, concatV ((List.range nother).map (fun i =>
+          run (KJ.interp p kL kR h mk) (KJ.layer p) (KJ.inputs other bc) F (.out i))) = .frame l ∧
+      l.Perm ((specFor p.how p.side kL kR (catRows nother other) B).map mk) := by
+  refine ⟨(bcastPlan p.how p.side kL kR h nother p.bsize other bc).map mk, ?_, ?_⟩
+  · rw [concatV_map_frames (List.range nother) _
+      (fun i => (bcastPart p.how p.side kL kR h p.bsize bc (other i)).map mk)
+      (fun i hi => bj_run_out p kL kR h mk other bc i (by rw [hparts]; exact hi) F hF)]
+    rw [bcastPlan, List.map_flatMap]
+  · exact (C10_join_broadcast_spec p.how p.side hallow kL kR h nother p.bsize hm other bc B hB).map mk
+
+/-- `BroadcastJoin._layer` is closed over its inputs and acyclic -/
+theorem C10_join_broadcast_wf (p : KJ.Params) (other bc : Nat → List Row) :
+    Closed (KJ.layer p) (KJ.inputs other bc) ∧ Ranked (KJ.layer p) bjRank :=
+  ⟨bj_closed p other bc, bj_ranked p⟩
+
+/-- Join strategy is a performance knob: for an allowed pair the hash plan (any `n`) and the broadcast
+    plan (any `nother`, `m`, any partitioning) are permutations of each other — whatever the thresholds
+    `n_low < log2(n_high) * bias`, `broadcast=True/False/float`, the `npartitions` hint decide. -/
+theorem C10_join_strategy {κ} [DecidableEq κ] (how : How) (side : Side) (hallow : allowed how side = true)
+    (kL kR : Row → κ) (h h' : κ → Nat) (n nother m : Nat) (hn : 0 < n) (hm : 0 < m)
+    (other bc : Nat → List Row) (B : List Row)
+    (hB : if how = .inner then B = catRows m bc
+          else ∀ j, j < m → (bc j).Perm (bucket h (bcastKey side kL kR) m j B)) :
+    (bcastPlan how side kL kR h nother m other bc).Perm
+      (match side with
+       | .right => hashPlan how kL kR h' n (catRows nother other) B
+       | .left => hashPlan how kL kR h' n B (catRows nother other)) := by
+  have hb := C10_join_broadcast_spec how side hallow kL kR h nother m hm other bc B hB
+  cases side
+  · exact hb.trans (C10_join_hash_spec how kL kR h' n hn B (catRows nother other)).symm
+  · exact hb.trans (C10_join_hash_spec how kL kR h' n hn (catRows nother other) B).symm
+
+namespace C10Ex
+/-- key = payload -/
+def kp (r : Row) : Nat := r.pay
+def row (k : Nat) (i : Int) : Row := ⟨i, 0, k⟩
+/-- the replicated side: one matched key (1) and one unmatched key (7), a single partition -/
+def wB : List Row := [row 1 0, row 7 1]
+/-- the other side: key 1 occurs in both partitions -/
+def wOther (i : Nat) : List Row := match i with | 0 => [row 1 10] | 1 => [row 1 11, row 2 12] | _ => []
+/-- large side for the positive examples: 3 partitions, one empty -/
+def big (i : Nat) : List Row := match i with | 0 => [row 1 0, row 2 1] | 2 => [row 3 2, row 1 3, row 9 4] | _ => []
+/-- small side in 2 arbitrary partitions / hash-bucketed into 2 partitions (h = id) -/
+def small (j : Nat) : List Row := match j with | 0 => [row 1 20, row 4 21] | 1 => [row 2 22, row 1 23] | _ => []
+def smallB (j : Nat) : List Row := bucket id kp 2 j (catRows 2 small)
+def mkRow (jr : JRow) : Row :=
+  ⟨0, 0, (match jr.1 with | some l => l.pay + 1 | none => 0) * 100 + (match jr.2 with | some r => r.pay + 1 | none => 0)⟩
+end C10Ex
+open C10Ex
+
+example : (hashPlan .outer kp kp id 3 (catRows 3 big) (catRows 2 small)).Perm
+    (joinSpec .outer kp kp (catRows 3 big) (catRows 2 small)) :=
+  C10_join_hash_spec .outer kp kp id 3 (by decide) _ _
+example : (joinSpec .outer kp kp (catRows 3 big) (catRows 2 small)).length = 8 := by decide
+
+example : (bcastPlan .inner .right kp kp id 3 2 big small).Perm
+    (joinSpec .inner kp kp (catRows 3 big) (catRows 2 small)) :=
+  C10_join_broadcast_spec .inner .right rfl kp kp id 3 2 (by decide) big small _ rfl
+example : (bcastPlan .left .right kp kp id 3 2 big smallB).Perm
+    (joinSpec .left kp kp (catRows 3 big) (catRows 2 small)) :=
+  C10_join_broadcast_spec .left .right rfl kp kp id 3 2 (by decide) big smallB (catRows 2 small)
+    (fun _ _ => List.Perm.refl _)
+example : (bcastPlan .right .left kp kp id 3 2 big smallB).Perm
+    (joinSpec .right kp kp (catRows 2 small) (catRows 3 big)) :=
+  C10_join_broadcast_spec .right .left rfl kp kp id 3 2 (by decide) big smallB (catRows 2 small)
+    (fun _ _ => List.Perm.refl _)
+example : (joinSpec .left kp kp (catRows 3 big) (catRows 2 small)).length = 7 ∧
+    (bcastPlan .left .right kp kp id 3 2 big smallB).length = 7 := by decide
+example : (bcastPlan .left .right kp kp id 3 2 big smallB).Perm
+    (hashPlan .left kp kp (fun k => 3 * k) 5 (catRows 3 big) (catRows 2 small)) :=
+  C10_join_strategy .left .right rfl kp kp id _ 5 3 2 (by decide) (by decide) big smallB (catRows 2 small)
+    (fun _ _ => List.Perm.refl _)
+example : ((List.range 3).flatMap (fun i => specFor .leftsemi .right kp kp (big i) (catRows 2 small))).Perm
+    (joinSpec .leftsemi kp kp (catRows 3 big) (catRows 2 small)) :=
+  C10_join_single_spec .leftsemi .right rfl kp kp 3 big _
+
+/-- the graph of a left join broadcasting the (bucketed) right side, evaluated: 7 result rows -/
+example : ∃ l, concatV ((List.range 3).map (fun i =>
+      run (KJ.interp ⟨.left, .right, [0, 1, 2], 2⟩ kp kp id mkRow) (KJ.layer ⟨.left, .right, [0, 1, 2], 2⟩)
+        (KJ.inputs big smallB) 3 (.out i))) = .frame l ∧
+    l.Perm ((joinSpec .left kp kp (catRows 3 big) (catRows 2 small)).map mkRow) :=
+  C10_join_broadcast_run ⟨.left, .right, [0, 1, 2], 2⟩ rfl kp kp id mkRow 3 rfl (by decide) big smallB
+    (catRows 2 small) (fun _ _ => List.Perm.refl _) 3 (by decide)
+example : run (KJ.interp ⟨.left, .right, [0, 1, 2], 2⟩ kp kp id mkRow) (KJ.layer ⟨.left, .right, [0, 1, 2], 2⟩)
+    (KJ.inputs big smallB) 3 (.out 0) = .frame [⟨0, 0, 303⟩, ⟨0, 0, 202⟩, ⟨0, 0, 202⟩] := by decide
+
+/-- Every `how × side` pair outside `allowed` is WRONG: replicating that side changes the result (here
+    with one broadcast partition, two partitions on the other side; the hypothesis on the broadcast
+    side's layout holds).  E.g. broadcasting the left side of a left join repeats its unmatched rows
+    once per partition of the right side. -/
+theorem C10_join_not_allowed_wrong (how : How) (side : Side) (hna : allowed how side = false) :
+    (if how = .inner then wB = catRows 1 (fun _ => wB)
+      else ∀ j, j < 1 → ((fun _ => wB) j).Perm (bucket id (bcastKey side kp kp) 1 j wB)) ∧
+    (bcastPlan how side kp kp id 2 1 wOther (fun _ => wB)).length ≠
+      (specFor how side kp kp (catRows 2 wOther) wB).length := by
+  refine ⟨?_, ?_⟩
+  · cases how <;> simp only [allowed, Bool.true_eq_false] at hna <;> simp only [reduceCtorEq, if_false] <;>
+      intro j hj <;> (have : j = 0 := by omega) <;> subst this <;> rw [bucket_one] <;> exact List.Perm.refl _
+  · cases how <;> cases side <;> simp only [allowed, Bool.true_eq_false] at hna <;> decide
+
+example : (bcastPlan .left .left kp kp id 2 1 wOther (fun _ => wB)).length = 4 ∧
+    (joinSpec .left kp kp wB (catRows 2 wOther)).length = 3 := by decide
+
+/-- The decisions of `Merge._lower` (`_is_single_partition_broadcast`, `is_broadcast_join`,
+    `broadcast_side`, the `npartitions` hint), for BOTH outcomes of the float threshold test, every
+    `broadcast` knob value, every shuffle method and all partition counts, only ever choose a plan that is
+    legal for `how`: a single-partition broadcast or BroadcastJoin of an `allowed` side (hash-shuffled
+    unless `inner`), or a hash join into ≥ 1 partitions. -/
+theorem C10_join_lower_legal (x : LowerIn) (hl : 1 ≤ x.nl) (hr : 1 ≤ x.nr)
+    (hh : ∀ n, x.hint = some n → 1 ≤ n) :
+    planLegal x.how x.nl x.nr (lowerPlan x) = true := by
+  obtain ⟨how, nl, nr, bc, method, hint, thr⟩ := x
+  simp only at hl hr hh
+  simp only [lowerPlan]
+  split
+  · rename_i hs
+    cases how <;> simp [isSingle, planLegal, allowed, max_eq_one nl nr hl hr] at hs ⊢ <;> omega
+  · split
+    · rename_i _ hb
+      by_cases hlt : nl < nr
+      · cases how <;> simp [isBroadcast, broadcastSide, howName, hlt] at hb ⊢ <;>
+          simp [planLegal, allowed]
+      · cases how <;> simp [isBroadcast, broadcastSide, howName, hlt] at hb ⊢ <;>
+          simp [planLegal, allowed]
+    · cases hint with
+      | none =>
+        simp only [planLegal, KJ.npartitions]
+        exact decide_eq_true (Nat.le_trans hl (Nat.le_max_left _ _))
+      | some n =>
+        simp only [planLegal, KJ.npartitions]
+        exact decide_eq_true (hh n rfl)
+
+example : lowerPlan ⟨.left, 40, 2, .yes, .tasks, some 6, false⟩ = .broadcast .right 6 2 true ∧
+    lowerPlan ⟨.left, 2, 40, .yes, .tasks, none, true⟩ = .hash 40 false ∧
+    lowerPlan ⟨.inner, 2, 40, .none, .tasks, none, true⟩ = .broadcast .left 40 2 false ∧
+    lowerPlan ⟨.inner, 2, 40, .none, .tasks, none, false⟩ = .hash 40 false ∧
+    lowerPlan ⟨.right, 1, 4, .no, .disk, some 6, false⟩ = .single := by decide
+example : planLegal .left 40 2 (lowerPlan ⟨.left, 40, 2, .yes, .tasks, some 6, false⟩) = true :=
+  C10_join_lower_legal ⟨.left, 40, 2, .yes, .tasks, some 6, false⟩ (by decide) (by decide)
+    (by intro n h; cases h; decide)
+
+/-- Why `is_broadcast_join` has to exclude (leftsemi, left) explicitly (D87, `fix:` 14bac10 — before it
+    the test `how != broadcast_side` compared the strings "leftsemi" and "left", so a leftsemi join with 1
+    left and 8 right partitions automatically broadcast its LEFT side): that plan returns a left row once
+    per right partition holding its key.  The decision as it is now picks the hash join for that input. -/
+theorem C10_join_lower_leftsemi_counterexample :
+    (bcastPlan .leftsemi .left kp kp id 2 1 wOther (fun _ => wB)).length = 2 ∧
+    (joinSpec .leftsemi kp kp wB (catRows 2 wOther)).length = 1 ∧
+    planLegal .leftsemi 1 8 (.broadcast .left 8 1 true) = false ∧
+    lowerPlan ⟨.leftsemi, 1, 8, .none, .tasks, none, true⟩ = .hash 8 false ∧
+    lowerPlan ⟨.leftsemi, 2, 4, .yes, .tasks, none, false⟩ = .hash 4 false ∧
+    lowerPlan ⟨.leftsemi, 4, 2, .yes, .tasks, none, false⟩ = .broadcast .right 4 2 true := by decide
+
+end Join
+
+/-! ## sort / set_index: the divisions only influence the layout -/
+section SortSec
+open Shuffle KS
+
+/-- For ANY divisions vector with at least two entries (any `npartitions`, any `upsample`, sorted or
+    not, covering the data or not) and any permutation-preserving per-partition sort, the pipeline
+    returns every input row exactly once. -/
+theorem C10_sort_perm (srt : List Row → List Row) (hperm : ∀ l, (srt l).Perm l) (d : List Int) (asc : Bool)
+    (hd : 2 ≤ d.length) (l : List Row) : (sortPlan srt d asc l).Perm l :=
+  sortPlan_perm srt hperm d asc hd l
+
+/-- If moreover no key lies below every division (the first division produced by the quantile
+    sampling is the minimum of the data; T3-checked) the concatenated output is in the requested order. -/
+theorem C10_sort_sorted (srt : List Row → List Row) (hperm : ∀ l, (srt l).Perm l) (d : List Int) (asc : Bool)
+    (hsorted : ∀ l, (srt l).Pairwise (before asc)) (hd : 2 ≤ d.length) (l : List Row)
+    (hcov : ∀ r ∈ l, ∃ c ∈ d, c ≤ r.idx) : (sortPlan srt d asc l).Pairwise (before asc) :=
+  sortPlan_sorted srt hperm d asc hsorted hd l hcov
+
+/-- `npartitions` / `upsample` / the sampled quantiles are performance knobs: two runs with different
+    divisions vectors (and even different sort kernels) return permutations of each other with the SAME
+    key sequence — the sorted permutation of the input; only the partition layout differs. -/
+theorem C10_sort_npartitions (srt₁ srt₂ : List Row → List Row) (asc : Bool)
+    (hp₁ : ∀ l, (srt₁ l).Perm l) (hp₂ : ∀ l, (srt₂ l).Perm l)
+    (hs₁ : ∀ l, (srt₁ l).Pairwise (before asc)) (hs₂ : ∀ l, (srt₂ l).Pairwise (before asc))
+    (d₁ d₂ : List Int) (hd₁ : 2 ≤ d₁.length) (hd₂ : 2 ≤ d₂.length) (l : List Row)
+    (hc₁ : ∀ r ∈ l, ∃ c ∈ d₁, c ≤ r.idx) (hc₂ : ∀ r ∈ l, ∃ c ∈ d₂, c ≤ r.idx) :
+    (sortPlan srt₁ d₁ asc l).Perm (sortPlan srt₂ d₂ asc l) ∧
+    (sortPlan srt₁ d₁ asc l).map (·.idx) = (sortPlan srt₂ d₂ asc l).map (·.idx) ∧
+    (sortPlan srt₁ d₁ asc l).map (·.idx) = (stableSort asc l).map (·.idx) := by
+  have p₁ := C10_sort_perm srt₁ hp₁ d₁ asc hd₁ l
+  have p₂ := C10_sort_perm srt₂ hp₂ d₂ asc hd₂ l
+  have s₁ := C10_sort_sorted srt₁ hp₁ d₁ asc hs₁ hd₁ l hc₁
+  have s₂ := C10_sort_sorted srt₂ hp₂ d₂ asc hs₂ hd₂ l hc₂
+  exact ⟨p₁.trans p₂.symm, sorted_perm_keys_eq asc (p₁.trans p₂.symm) s₁ s₂,
+    sorted_perm_keys_eq asc (p₁.trans (stableSort_perm asc l).symm) s₁ (stableSort_sorted asc l)⟩
+
+/-- soundness of the checker run on the real `_calculate_divisions` output -/
+theorem C10_sort_divsOK_sound (d keys : List Int) (h : divsOK d keys = true) :
+    2 ≤ d.length ∧ d.Pairwise (· ≤ ·) ∧ ∀ k ∈ keys, ∃ c ∈ d, c ≤ k := by
+  simp only [divsOK, Bool.and_eq_true, decide_eq_true_eq] at h
+  obtain ⟨⟨h2, hs⟩, hc⟩ := h
+  refine ⟨h2, sortedInts_pairwise d hs, ?_⟩
+  cases d with
+  | nil => cases hc
+  | cons d0 t =>
+    intro k hk
+    simp only [List.all_eq_true, decide_eq_true_eq] at hc
+    exact ⟨d0, by simp, hc k hk⟩
+
+/-- the partitions the sort kernel receives are the outputs of the real shuffle graph: with the
+    `_partitions` column computed by `set_partitions_pre`, output `j` of the SimpleShuffle layer is the
+    sub-list of the concatenated input assigned to `j` -/
+theorem C10_sort_shuffle_run (I : Interp) (p : Shuffle.Params) (rows : Nat → List Row) (d : List Int) (asc : Bool)
+    (hd : 2 ≤ d.length) (hnout : p.nout = d.length - 1) (hparts : p.parts = List.range p.nout)
+    (ha : ∀ i, ∀ r ∈ rows i, r.tgt = setPartitionsPre d asc r.idx) (j : Nat) (hj : j < p.nout) :
+    run I (simpleTask p) (inputs rows) 3 (.out .self j) = .frame (assigned d asc j (allRows p.nin rows)) := by
+  obtain ⟨hlen, hpj⟩ := parts_range p hparts j hj
+  rw [C12_simple I p rows j hlen (parts_range_lt p hparts)
+    (fun i r hr => by rw [ha i r hr, hnout]; exact setPartitionsPre_lt d asc r.idx hd), hpj, sem_eq_filter]
+  congr 1
+  apply List.filter_congr
+  intro r hr
+  obtain ⟨i, _, hri⟩ := List.mem_flatMap.mp hr
+  rw [ha i r hri]
+
+/-- Why the coverage hypothesis is needed — the code's clamp `partitions < 0 → len(divisions) - 2` sends
+    a key below the first division to the LAST partition: with divisions `[5, 10, 15]` the key 1 ends up
+    after 7 (in the last partition, next to 12).  (Divisions computed by the library start at the minimum; user-supplied ones need not.) -/
+theorem C10_sort_below_first_division_counterexample :
+    (sortPlan (stableSort true) [5, 10, 15] true [⟨12, 0, 0⟩, ⟨1, 0, 1⟩, ⟨7, 0, 2⟩]).map (·.idx) = [7, 1, 12] := by
+  decide
+
+namespace C10Ex
+def srows : List Row := [⟨12, 0, 0⟩, ⟨5, 0, 1⟩, ⟨7, 0, 2⟩, ⟨5, 0, 3⟩, ⟨30, 0, 4⟩, ⟨9, 0, 5⟩]
+theorem srows_cov (d0 : Int) (t : List Int) (h : d0 ≤ 5) : ∀ r ∈ srows, ∃ c ∈ d0 :: t, c ≤ r.idx := by
+  intro r hr
+  refine ⟨d0, by simp, ?_⟩
+  simp only [srows, List.mem_cons, List.not_mem_nil, or_false] at hr
+  rcases hr with rfl | rfl | rfl | rfl | rfl | rfl <;> simp <;> omega
+end C10Ex
+open C10Ex
+
+example : (sortPlan (stableSort true) [5, 9, 30] true srows).map (·.idx) =
+    (sortPlan (stableSort true) [5, 6, 7, 8, 8, 40] true srows).map (·.idx) :=
+  (C10_sort_npartitions (stableSort true) (stableSort true) true (stableSort_perm true) (stableSort_perm true)
+    (stableSort_sorted true) (stableSort_sorted true) [5, 9, 30] [5, 6, 7, 8, 8, 40] (by decide) (by decide) srows
+    (srows_cov 5 _ (by decide)) (srows_cov 5 _ (by decide))).2.1
+example : (sortPlan (stableSort true) [5, 9, 30] true srows).map (·.idx) = [5, 5, 7, 9, 12, 30] := by decide
+example : (sortPlan (stableSort false) [5, 9, 30] false srows).map (·.idx) = [30, 12, 9, 7, 5, 5] := by decide
+example : (sortPlan (stableSort false) [5, 9, 30] false srows).Pairwise (before false) :=
+  C10_sort_sorted (stableSort false) (stableSort_perm false) [5, 9, 30] false (stableSort_sorted false) (by decide)
+    srows (srows_cov 5 _ (by decide))
+example : divsOK [5, 9, 30] (srows.map (·.idx)) = true ∧ divsOK [6, 9, 30] (srows.map (·.idx)) = false := by decide
+example : 2 ≤ ([5, 9, 30] : List Int).length ∧ ([5, 9, 30] : List Int).Pairwise (· ≤ ·) ∧
+    ∀ k ∈ srows.map (·.idx), ∃ c ∈ ([5, 9, 30] : List Int), c ≤ k :=
+  C10_sort_divsOK_sound [5, 9, 30] (srows.map (·.idx)) (by decide)
+example : (sortPlan (stableSort true) [100, 3] true srows).Perm srows :=
+  C10_sort_perm (stableSort true) (stableSort_perm true) [100, 3] true (by decide) srows
+
+end SortSec
+
+/-! ## split_out -/
+section SplitOut
+open Shuffle GJ KR
+
+/-- `split_out` (and `split_every`, which enters `shuffle_npartitions`) is a performance knob: hashing the
+    group keys into ANY number `n ≥ 1` of partitions with ANY hash function and aggregating every
+    partition group-wise yields the same groups — every group once, aggregated over exactly its rows
+    in frame order — as the tree reduction used for `split_out = 1`, up to the order of the groups. -/
+theorem C10_split_out {κ β} [DecidableEq κ] (key : Row → κ) (agg : κ → List Row → List β)
+    (h₁ h₂ : κ → Nat) (n₁ n₂ : Nat) (hn₁ : 0 < n₁) (hn₂ : 0 < n₂) (chunks : List Row) :
+    (shufflePlan key agg h₁ n₁ chunks).Perm (treePlan key agg chunks) ∧
+    (shufflePlan key agg h₁ n₁ chunks).Perm (shufflePlan key agg h₂ n₂ chunks) ∧
+    shufflePlan key agg h₁ 1 chunks = treePlan key agg chunks :=
+  ⟨shufflePlan_perm_tree key agg h₁ n₁ hn₁ chunks,
+   (shufflePlan_perm_tree key agg h₁ n₁ hn₁ chunks).trans (shufflePlan_perm_tree key agg h₂ n₂ hn₂ chunks).symm,
+   shufflePlan_one key agg h₁ chunks⟩
+
+/-- the partition count `ShuffleReduce._lower` computes is ≥ 1 for every `split_every`, so the theorem
+    applies to every knob combination with `split_out ≥ 1` -/
+theorem C10_split_out_npartitions (nin splitEvery splitOut : Nat) (h : 1 ≤ splitOut) :
+    1 ≤ shuffleNpartitions nin splitEvery splitOut := by
+  unfold shuffleNpartitions
+  exact Nat.le_trans h (Nat.le_max_right _ _)
+
+/-- …through the real SimpleShuffle graph: the chunks get their `_partitions` column from
+    `AssignPartitioningIndex` (`hash(key) % nout`), are shuffled, the column is dropped, every output
+    partition is aggregated group-wise. -/
+theorem C10_split_out_run {κ β} [DecidableEq κ] (I : Interp) (p : Shuffle.Params) (chunks : Nat → List Row)
+    (key : Row → κ) (hkey : ∀ r t, key { r with tgt := t } = key r)
+    (agg : κ → List Row → List β) (h : κ → Nat) (hpos : 0 < p.nout) (hp : p.parts = List.range p.nout) :
+    ((List.range p.nout).flatMap (fun j =>
+        match run I (simpleTask p) (inputs (fun i => (chunks i).map (assignTgt key h p.nout))) 3 (.out .self j) with
+        | .frame l => groupApply key agg (l.map dropTgt)
+        | _ => [])).Perm
+      (treePlan key agg ((allRows p.nin chunks).map dropTgt)) := by
+  have hdrop : ∀ r, key (dropTgt r) = key r := fun r => hkey r 0
+  have hasg : ∀ r, key (assignTgt key h p.nout r) = key r := fun r => hkey r _
+  have main := C02_shuffle_reduce_run I p (fun i => (chunks i).map (assignTgt key h p.nout)) key
+    (fun k rows => agg k (rows.map dropTgt)) (fun k => h k % p.nout) (fun _ => Nat.mod_lt _ hpos)
+    (by
+      intro i r hr
+      obtain ⟨r0, _, rfl⟩ := List.mem_map.mp hr
+      rw [hasg r0]; rfl) hp
+  refine List.Perm.trans (List.Perm.of_eq ?_) (main.trans (List.Perm.of_eq ?_))
+  · apply flatMap_congr'
+    intro j _
+    cases run I (simpleTask p) (inputs (fun i => (chunks i).map (assignTgt key h p.nout))) 3 (.out .self j) with
+    | frame l => exact groupApply_map key agg dropTgt hdrop l
+    | _ => rfl
+  · have e : allRows p.nin (fun i => (chunks i).map (assignTgt key h p.nout)) =
+        (allRows p.nin chunks).map (assignTgt key h p.nout) := by
+      unfold allRows; rw [List.map_flatMap]
+    rw [e, groupApply_map key _ _ hasg, treePlan, groupApply_map key agg dropTgt hdrop]
+    congr 1
+    funext k rows
+    rw [List.map_map]
+    rfl
+
+/-- unique / drop_duplicates: the distinct keys; value_counts: (key, number of rows) — for every split_out -/
+example (h : Nat → Nat) (n : Nat) (hn : 0 < n) :
+    (shufflePlan (fun r => r.pay) (fun k _ => [k]) h n (allRows 3 C02Ex.jrows₁)).Perm [0, 1, 2, 3] := by
+  have e : treePlan (fun r => r.pay) (fun k _ => [k]) (allRows 3 C02Ex.jrows₁) = [0, 1, 2, 3] := by decide
+  exact e ▸ (C10_split_out (fun r => r.pay) (fun k _ => [k]) h h n n hn hn (allRows 3 C02Ex.jrows₁)).1
+example : shufflePlan (fun r : Row => r.pay) (fun k g => [(k, g.length)]) (fun k => 5 * k) 4 (allRows 3 C02Ex.jrows₁) =
+    [(0, 1), (1, 2), (2, 2), (3, 1)] := by decide
+example : (shufflePlan (fun r => r.pay) (fun k g => [(k, g.length)]) (fun k => 7 * k) 3 (allRows 3 C02Ex.jrows₁)).Perm
+    (shufflePlan (fun r => r.pay) (fun k g => [(k, g.length)]) (fun k => k) 2 (allRows 3 C02Ex.jrows₁)) :=
+  (C10_split_out _ _ _ _ 3 2 (by decide) (by decide) _).2.1
+example : 1 ≤ shuffleNpartitions 20 8 3 ∧ shuffleNpartitions 20 8 1 = 2 ∧ shuffleNpartitions 20 0 3 = 3 :=
+  ⟨C10_split_out_npartitions 20 8 3 (by decide), by decide, by decide⟩
+example : ((List.range 7).flatMap (fun j =>
+      match run C12Ex.I0 (simpleTask C12Ex.pNeAll) (inputs (fun i => (C02Ex.jrows₁ i).map (assignTgt (fun r => r.pay) (fun k => 3 * k) 7)))
+          3 (.out .self j) with
+      | .frame l => groupApply (fun r => r.pay) (fun k g => [(k, g.length)]) (l.map dropTgt)
+      | _ => [])).Perm
+    (treePlan (fun r => r.pay) (fun k g => [(k, g.length)]) ((allRows 3 C02Ex.jrows₁).map dropTgt)) :=
+  C10_split_out_run C12Ex.I0 C12Ex.pNeAll C02Ex.jrows₁ (fun r => r.pay) (fun _ _ => rfl) _ (fun k => 3 * k) (by decide) (by decide)
+
+end SplitOut
 
 end Dx
